@@ -172,17 +172,37 @@ fn dur(ns: Option<u64>) -> Option<Duration> {
 
 pub struct Mock;
 
+thread_local! {
+    /// While set, the wrapped allocator refuses every request on this thread (returns null).
+    pub static MOCK_REFUSES: std::cell::Cell<bool> = const { std::cell::Cell::new(false) };
+}
+
+fn mock_ptr(addr: usize) -> *mut u8 {
+    if MOCK_REFUSES.with(|c| c.get()) {
+        std::ptr::null_mut()
+    } else {
+        addr as *mut u8
+    }
+}
+
 unsafe impl GlobalAlloc for Mock {
     unsafe fn alloc(&self, _: Layout) -> *mut u8 {
-        0x1000 as *mut u8
+        mock_ptr(0x1000)
     }
     unsafe fn dealloc(&self, _: *mut u8, _: Layout) {}
     unsafe fn alloc_zeroed(&self, _: Layout) -> *mut u8 {
-        0x1000 as *mut u8
+        mock_ptr(0x1000)
     }
     unsafe fn realloc(&self, _: *mut u8, _: Layout, _: usize) -> *mut u8 {
-        0x2000 as *mut u8
+        mock_ptr(0x2000)
     }
+}
+
+/// Applies one operation that the wrapped allocator refuses.
+pub fn apply_op_refused(op: Op) {
+    MOCK_REFUSES.with(|c| c.set(true));
+    apply_op(op);
+    MOCK_REFUSES.with(|c| c.set(false));
 }
 
 pub static PROFILER: AllocProfiler<Mock> = AllocProfiler::new(Mock);
